@@ -1,4 +1,411 @@
-//! stream `parse` — not implemented yet
-pub fn handle(_args: &[&str]) -> Option<String> {
-    None
+//! stream `parse` (front end): real `Tokenizer` → `Model::try_from` → `try_resolve`, canonical dump
+//!
+//!   parse mod  <hex text>        → ok <dump of Model<Asn<Unresolved>>> | err <class>
+//!   parse rt   <hex text> [...]  → ok <unresolved dump> <resolved dump | err:<class>> | err <class>
+//!   parse fuzz <hex text>        → ok | err parse:<class> | err resolve:<class> | panic <stage>
+//!
+//! The dump format (one token, no blanks) is documented in tools/front_gen.py.
+use crate::util::*;
+use asn1rs_model::asn::{
+    Asn, Charset, Choice, ComponentTypeList, Enumerated, ObjectIdentifier,
+    ObjectIdentifierComponent, Range, Size, Tag, Type,
+};
+use asn1rs_model::parse::Tokenizer;
+use asn1rs_model::resolve::{LitOrRef, ResolveState, Resolved, Unresolved};
+use asn1rs_model::{Import, LiteralValue, Model};
+
+pub trait Show {
+    fn show(&self) -> String;
+}
+
+impl Show for usize {
+    fn show(&self) -> String {
+        self.to_string()
+    }
+}
+
+impl Show for i64 {
+    fn show(&self) -> String {
+        self.to_string()
+    }
+}
+
+impl Show for u64 {
+    fn show(&self) -> String {
+        self.to_string()
+    }
+}
+
+fn hex_or_empty(bytes: &[u8]) -> String {
+    if bytes.is_empty() {
+        String::new()
+    } else {
+        hex(bytes)
+    }
+}
+
+impl Show for LiteralValue {
+    fn show(&self) -> String {
+        match self {
+            LiteralValue::Boolean(b) => format!("(b,{})", b01(*b)),
+            LiteralValue::String(s) => format!("(s,{})", hex_or_empty(s.as_bytes())),
+            LiteralValue::Integer(i) => format!("(i,{})", i),
+            LiteralValue::OctetString(v) => format!("(o,{})", hex_or_empty(v)),
+            LiteralValue::EnumeratedVariant(t, v) => format!("(e,{},{})", t, v),
+        }
+    }
+}
+
+impl<T: Show> Show for LitOrRef<T> {
+    fn show(&self) -> String {
+        match self {
+            LitOrRef::Lit(v) => v.show(),
+            LitOrRef::Ref(name) => format!("@{}", name),
+        }
+    }
+}
+
+fn sx(head: &str, args: &[String]) -> String {
+    let mut s = String::from("(");
+    s.push_str(head);
+    for a in args {
+        s.push(',');
+        s.push_str(a);
+    }
+    s.push(')');
+    s
+}
+
+fn dump_tag(tag: &Option<Tag>) -> String {
+    match tag {
+        None => "-".to_string(),
+        Some(Tag::Universal(n)) => format!("U{}", n),
+        Some(Tag::Application(n)) => format!("A{}", n),
+        Some(Tag::ContextSpecific(n)) => format!("C{}", n),
+        Some(Tag::Private(n)) => format!("P{}", n),
+    }
+}
+
+fn dump_charset(c: &Charset) -> &'static str {
+    match c {
+        Charset::Utf8 => "utf8",
+        Charset::Numeric => "numeric",
+        Charset::Printable => "printable",
+        Charset::Ia5 => "ia5",
+        Charset::Visible => "visible",
+    }
+}
+
+fn dump_size<T: Show + std::fmt::Display + std::fmt::Debug + Clone>(s: &Size<T>) -> String {
+    match s {
+        Size::Any => "any".to_string(),
+        Size::Fix(n, e) => sx("fix", &[n.show(), b01(*e).to_string()]),
+        Size::Range(a, b, e) => sx("range", &[a.show(), b.show(), b01(*e).to_string()]),
+    }
+}
+
+fn dump_opt<T: Show>(v: &Option<T>) -> String {
+    match v {
+        None => "-".to_string(),
+        Some(v) => v.show(),
+    }
+}
+
+/// marker position as the number of root components (`extension_after + 1`)
+fn dump_ext(e: Option<usize>) -> String {
+    match e {
+        None => "-".to_string(),
+        Some(k) => (k as u128 + 1).to_string(),
+    }
+}
+
+fn dump_constants<T: Show>(cs: &[(String, T)]) -> String {
+    let v: Vec<String> = cs
+        .iter()
+        .map(|(n, v)| format!("({},{})", n, v.show()))
+        .collect();
+    sx("c", &v)
+}
+
+fn dump_enum(e: &Enumerated) -> String {
+    let mut v = vec![dump_ext(e.extension_after_index())];
+    for var in e.variants() {
+        v.push(sx(
+            "v",
+            &[
+                var.name().to_string(),
+                match var.number() {
+                    None => "-".to_string(),
+                    Some(n) => n.to_string(),
+                },
+            ],
+        ));
+    }
+    sx("enum", &v)
+}
+
+pub trait Dumpable: ResolveState
+where
+    Self::SizeType: Show,
+    Self::RangeType: Show,
+    Self::ConstType: Show,
+{
+}
+
+impl Dumpable for Resolved {}
+impl Dumpable for Unresolved {}
+
+fn dump_range<T: Show>(r: &Range<Option<T>>) -> Vec<String> {
+    vec![dump_opt(&r.0), dump_opt(&r.1), b01(r.2).to_string()]
+}
+
+fn dump_components<RS: Dumpable>(head: &str, c: &ComponentTypeList<RS>) -> String
+where
+    RS::SizeType: Show,
+    RS::RangeType: Show,
+    RS::ConstType: Show,
+{
+    let mut v = vec![dump_ext(c.extension_after)];
+    for f in &c.fields {
+        v.push(sx(
+            "f",
+            &[
+                f.name.clone(),
+                dump_tag(&f.role.tag),
+                dump_ty(&f.role.r#type),
+                dump_opt(&f.role.default),
+            ],
+        ));
+    }
+    sx(head, &v)
+}
+
+fn dump_choice<RS: Dumpable>(c: &Choice<RS>) -> String
+where
+    RS::SizeType: Show,
+    RS::RangeType: Show,
+    RS::ConstType: Show,
+{
+    let mut v = vec![dump_ext(c.extension_after_index())];
+    for var in c.variants() {
+        v.push(sx(
+            "a",
+            &[
+                var.name.clone(),
+                dump_tag(&var.tag),
+                dump_ty(&var.r#type),
+            ],
+        ));
+    }
+    sx("choice", &v)
+}
+
+pub fn dump_ty<RS: Dumpable>(t: &Type<RS>) -> String
+where
+    RS::SizeType: Show,
+    RS::RangeType: Show,
+    RS::ConstType: Show,
+{
+    match t {
+        Type::Boolean => "bool".to_string(),
+        Type::Null => "null".to_string(),
+        Type::Integer(i) => {
+            let mut v = dump_range(&i.range);
+            v.push(dump_constants(&i.constants));
+            sx("int", &v)
+        }
+        Type::String(s, c) => sx("str", &[dump_charset(c).to_string(), dump_size(s)]),
+        Type::OctetString(s) => sx("oct", &[dump_size(s)]),
+        Type::BitString(b) => sx("bit", &[dump_size(&b.size), dump_constants(&b.constants)]),
+        Type::Optional(inner) => sx("opt", &[dump_ty(inner)]),
+        // never produced by the ASN.1 parser (proc-macro attribute parser only)
+        Type::Default(inner, lit) => sx("dflt", &[dump_ty(inner), lit.show()]),
+        Type::Sequence(c) => dump_components("seq", c),
+        Type::SequenceOf(inner, s) => sx("seqof", &[dump_size(s), dump_ty(inner)]),
+        Type::Set(c) => dump_components("set", c),
+        Type::SetOf(inner, s) => sx("setof", &[dump_size(s), dump_ty(inner)]),
+        Type::Enumerated(e) => dump_enum(e),
+        Type::Choice(c) => dump_choice(c),
+        Type::TypeReference(n, t) => sx("ref", &[n.clone(), dump_tag(t)]),
+    }
+}
+
+fn dump_oid(o: &Option<ObjectIdentifier>) -> String {
+    match o {
+        None => "-".to_string(),
+        Some(oid) => {
+            let v: Vec<String> = oid
+                .iter()
+                .map(|c| match c {
+                    ObjectIdentifierComponent::NameForm(n) => sx("n", &[n.clone()]),
+                    ObjectIdentifierComponent::NumberForm(k) => sx("u", &[k.to_string()]),
+                    ObjectIdentifierComponent::NameAndNumberForm(n, k) => {
+                        sx("nn", &[n.clone(), k.to_string()])
+                    }
+                })
+                .collect();
+            sx("oid", &v)
+        }
+    }
+}
+
+fn dump_import(i: &Import) -> String {
+    sx(
+        "imp",
+        &[i.from.clone(), dump_oid(&i.from_oid), sx("w", &i.what)],
+    )
+}
+
+pub fn dump_model<RS: Dumpable>(m: &Model<Asn<RS>>) -> String
+where
+    RS::SizeType: Show,
+    RS::RangeType: Show,
+    RS::ConstType: Show,
+{
+    let imports: Vec<String> = m.imports.iter().map(dump_import).collect();
+    let vrefs: Vec<String> = m
+        .value_references
+        .iter()
+        .map(|v| {
+            sx(
+                "vr",
+                &[v.name.clone(), dump_ty(&v.role.r#type), v.value.show()],
+            )
+        })
+        .collect();
+    let defs: Vec<String> = m
+        .definitions
+        .iter()
+        .map(|d| sx("def", &[d.0.clone(), dump_tag(&d.1.tag), dump_ty(&d.1.r#type)]))
+        .collect();
+    sx(
+        "mod",
+        &[
+            m.name.clone(),
+            dump_oid(&m.oid),
+            sx("imports", &imports),
+            sx("vrefs", &vrefs),
+            sx("defs", &defs),
+        ],
+    )
+}
+
+/// class of a parse error.  `ErrorKind` is not reachable through the public API of
+/// `parse::Error`, its `Display` text is: every variant has its own fixed phrase after the
+/// `At line L, column C ` prefix.
+pub fn parse_err_class(e: &asn1rs_model::parse::Error) -> &'static str {
+    let msg = format!("{}", e);
+    let body: &str = if let Some(rest) = msg.strip_prefix("At line ") {
+        // skip "<L>, column <C> "
+        match rest.find(", column ") {
+            Some(p) => {
+                let after = &rest[p + ", column ".len()..];
+                match after.find(' ') {
+                    Some(q) => &after[q + 1..],
+                    None => after,
+                }
+            }
+            None => rest,
+        }
+    } else {
+        &msg
+    };
+    let table: &[(&str, &str)] = &[
+        ("expected text, but instead got", "expected-text"),
+        ("expected a text like", "expected-text-got"),
+        ("expected separator, but instead got", "expected-sep"),
+        ("expected a separator like", "expected-sep-got"),
+        ("an unexpected token was encountered", "unexpected-token"),
+        ("The ASN definition is missing the module name", "missing-module-name"),
+        ("Unexpected end of stream or file", "eof"),
+        ("an unexpected range value was encountered", "invalid-range-value"),
+        ("an invalid value for an enum variant", "invalid-enum-number"),
+        ("an invalid value for an constant value", "invalid-constant"),
+        ("an invalid value for a tag", "invalid-tag"),
+        ("an extension marker is present", "invalid-ext-marker"),
+        ("a number was expected but instead got", "invalid-int"),
+        ("an (yet) unsupported value reference literal", "unsupported-literal"),
+        ("an invalid literal was discovered", "invalid-literal"),
+    ];
+    for (phrase, class) in table {
+        if body.starts_with(phrase) {
+            return class;
+        }
+    }
+    "other"
+}
+
+pub fn resolve_err_class(e: &asn1rs_model::resolve::Error) -> &'static str {
+    use asn1rs_model::resolve::Error::*;
+    match e {
+        FailedToResolveType(_) => "resolve-type",
+        FailedToResolveReference(_) => "resolve-reference",
+        FailedToParseLiteral(_) => "resolve-literal",
+    }
+}
+
+pub fn text_of(h: &str) -> Option<String> {
+    String::from_utf8(unhex(h)?).ok()
+}
+
+pub fn parse_text(text: &str) -> Result<Model<Asn<Unresolved>>, asn1rs_model::parse::Error> {
+    Model::try_from(Tokenizer::default().parse(text))
+}
+
+fn stage<T>(f: impl FnOnce() -> T) -> Result<T, ()> {
+    std::panic::catch_unwind(std::panic::AssertUnwindSafe(f)).map_err(drop)
+}
+
+pub fn handle(args: &[&str]) -> Option<String> {
+    Some(match args {
+        ["mod", h] => {
+            let text = text_of(h)?;
+            match parse_text(&text) {
+                Ok(m) => format!("ok {}", dump_model(&m)),
+                Err(e) => format!("err {}", parse_err_class(&e)),
+            }
+        }
+        ["rt", h, ..] => {
+            let text = text_of(h)?;
+            match parse_text(&text) {
+                Ok(m) => {
+                    let r = match m.try_resolve() {
+                        Ok(r) => dump_model(&r),
+                        Err(e) => format!("err:{}", resolve_err_class(&e)),
+                    };
+                    format!("ok {} {}", dump_model(&m), r)
+                }
+                Err(e) => format!("err {}", parse_err_class(&e)),
+            }
+        }
+        ["fuzz", h] => {
+            let text = text_of(h)?;
+            let tokens = match stage(|| Tokenizer::default().parse(&text)) {
+                Ok(t) => t,
+                Err(()) => return Some("panic tokenizer".to_string()),
+            };
+            let model = match stage(|| Model::try_from(tokens)) {
+                Ok(Ok(m)) => m,
+                Ok(Err(e)) => return Some(format!("err parse:{}", parse_err_class(&e))),
+                Err(()) => return Some("panic parser".to_string()),
+            };
+            let resolved = match stage(|| model.try_resolve()) {
+                Ok(Ok(m)) => m,
+                Ok(Err(e)) => return Some(format!("err resolve:{}", resolve_err_class(&e))),
+                Err(()) => return Some("panic resolver".to_string()),
+            };
+            let rust = match stage(|| resolved.to_rust()) {
+                Ok(m) => m,
+                Err(()) => return Some("panic to_rust".to_string()),
+            };
+            {
+                use asn1rs_model::protobuf::ToProtobufModel;
+                if stage(|| rust.to_protobuf()).is_err() {
+                    return Some("panic to_protobuf".to_string());
+                }
+            }
+            "ok".to_string()
+        }
+        _ => return None,
+    })
 }
